@@ -495,7 +495,7 @@ void f_replace_string (void) {
                     }
                   else
                     {
-                      memcpy (dst2, src, plen);
+                      memmove (dst2, src, plen);	/* in place: source and destination may overlap */
                       dst2 += plen;
                       src += plen;
                     }
@@ -505,7 +505,7 @@ void f_replace_string (void) {
                   *dst2++ = *src++;
                 }
             }
-          memcpy (dst2, src, slimit - src);
+          memmove (dst2, src, slimit - src);
           dst2 += (slimit - src);
           *dst2 = 0;
           arg->u.string = extend_string (dst1, dst2 - dst1);
